@@ -13,6 +13,7 @@
        index columns / StoreFilter (frame.py:1676-1803, 1109-1219, store_filter.py).
    S_roundtrip is the specification (the same Frame comes back); M_roundtrip is the pipeline. *)
 Require Import SF.Prelude SF.Value Gen.Gen_c16.
+Require Export SF.CodecSpec.
 From Coq Require DecimalString DecimalZ.
 
 Notation text := (list ascii) (only parsing).
@@ -285,13 +286,6 @@ Definition is_sentinel (flt : sfilter) (s : string) : bool :=
   mem_str s (f_to_nan flt) || mem_str s (f_to_none flt) || mem_str s (f_to_posinf flt) || mem_str s (f_to_neginf flt).
 
 (* ------------------------------------------------------------------ typed columns *)
-Inductive kind := KBool | KInt | KFlt | KStr | KObj.
-Definition kind_eqb (a b : kind) : bool :=
-  match a, b with
-  | KBool, KBool | KInt, KInt | KFlt, KFlt | KStr, KStr | KObj, KObj => true
-  | _, _ => false
-  end.
-
 Fixpoint res_list {A} (l : list (res A)) : res (list A) :=
   match l with
   | [] => Ok []
@@ -372,19 +366,6 @@ Section Tables.
   Definition cols_of (d : A) (nc : nat) (rows : list (list A)) : list (list A) :=
     map (fun j => map (fun r => nth j r d) rows) (seq 0 nc).
 End Tables.
-
-(* ------------------------------------------------------------------ frames as the harness observes them *)
-Record tframe := mk_tframe {
-  tf_index : list (list val);      (* one label per row; a label is the list of its depth components *)
-  tf_columns : list (list val);    (* one label per column *)
-  tf_cols : list (kind * list val) (* per column: dtype kind and the values down the rows *)
-}.
-
-Definition labels_eqb : list (list val) -> list (list val) -> bool := list_eqb (list_eqb val_eqb).
-Definition tcol_eqb (a b : kind * list val) : bool := kind_eqb (fst a) (fst b) && list_eqb val_eqb (snd a) (snd b).
-Definition tframe_eqb (a b : tframe) : bool :=
-  labels_eqb (tf_index a) (tf_index b) && labels_eqb (tf_columns a) (tf_columns b) &&
-  list_eqb tcol_eqb (tf_cols a) (tf_cols b).
 
 Record cfg := mk_cfg {
   c_delim : ascii;
@@ -510,10 +491,8 @@ Definition M_roundtrip (c : cfg) (f : tframe) : res tframe :=
   if negb (forallb renderable (all_values f)) then Err "OutOfModel:render"%string
   else M_import c (M_export c f).
 
-(* ------------------------------------------------------------------ specification *)
-Definition S_roundtrip (c : cfg) (f : tframe) : res tframe := Ok f.
-
-Definition obs_eqb : res tframe -> res tframe -> bool := res_eqb tframe_eqb.
+(* the specification of the delimited round trip, whatever the configuration: the same Frame (SF/CodecSpec.v) *)
+Definition S_roundtrip (c : cfg) (f : tframe) : res tframe := S_same f.
 
 (* ------------------------------------------------------------------ the domain of the round-trip theorem
    dom c f = the Frame is well formed, every cell text is unambiguous for its type, and the Frame is in none
